@@ -2470,6 +2470,14 @@ def _read_scalar_bool_from_value_or_constant(
     return None
 
 
+def _all_graph_values(graph: ir.Graph) -> List[ir.Value]:
+    values: List[ir.Value] = list(graph.inputs)
+    values.extend(graph.initializers.values())
+    for node in graph:
+        values.extend(_node_outputs(node))
+    return values
+
+
 def _constant_false_value() -> "ir.Value":
     return ir.Value(
         name="false_const",
@@ -2528,6 +2536,16 @@ def inline_dropout_training_mode_constants_ir(graph: ir.Graph) -> None:
                 nv = _read_scalar_bool_from_value_or_constant(nodes, not_in)
                 if nv is not None and bool(nv) is True:
                     rep_val = _constant_false_value()
+                    taken = {
+                        name
+                        for value in _all_graph_values(graph)
+                        if (name := _v_name(value)) is not None
+                    }
+                    suffix = 0
+                    while rep_val.name in taken:
+                        suffix += 1
+                        rep_val.name = f"false_const_{suffix}"
+                    graph.initializers.add(rep_val)
                     ins_new = list(ins)
                     ins_new[2] = rep_val
                     old_not_out = _node_output(producer)
